@@ -514,4 +514,39 @@ theorem nodeOfBytes_encNode (n : PbNode) (h : PbNodeOk n) : nodeOfBytes {} (encN
   rw [encNode_eq, parse_encFields _ (fieldsOfNode_ok n h)]
   exact decNode_fields n h
 
+/-! ### lists of nodes (`Nodes`, `NodesRequest`) -/
+def nodeFields (ns : List PbNode) : List Field := ns.map (fun n => (1, .len (encNode n)))
+
+theorem encNodes_eq (ns : List PbNode) : encNodes ns = encFields (nodeFields ns) := by
+  unfold encNodes
+  induction ns with
+  | nil => rfl
+  | cons n ns ih =>
+    show encLen 1 (encNode n) ++ ns.flatMap (fun n => encLen 1 (encNode n)) =
+      encField (1, .len (encNode n)) ++ encFields (nodeFields ns)
+    rw [ih]; rfl
+
+theorem decNodesRequest_fields (withErr : Bool) (ns : List PbNode) (h : ∀ n ∈ ns, PbNodeOk n) (acc : List PbNode) :
+    decNodesRequest acc [] withErr (nodeFields ns) = some (acc ++ ns, []) := by
+  induction ns generalizing acc with
+  | nil => simp [nodeFields, decNodesRequest]
+  | cons n ns ih =>
+    have hn := nodeOfBytes_encNode n (h n (by simp))
+    have := ih (fun x hx => h x (by simp [hx])) (acc ++ [n])
+    simp only [nodeFields] at this
+    simp only [nodeFields, List.map_cons, decNodesRequest, hn, Option.bind_some, this, List.append_assoc,
+      List.cons_append, List.nil_append]
+
+/-- **the bytes of a `Nodes` / `NodesRequest` message decode to the nodes** (messages below 2^64 bytes) -/
+theorem nodes_bytes (withErr : Bool) (ns : List PbNode) (h : ∀ n ∈ ns, PbNodeOk n ∧ (encNode n).length < 18446744073709551616) :
+    (parse (encNodes ns)).bind (decNodesRequest [] [] withErr) = some (ns, []) := by
+  rw [encNodes_eq, parse_encFields _ (by
+    intro f hf
+    simp only [nodeFields, List.mem_map] at hf
+    obtain ⟨n, hn, rfl⟩ := hf
+    exact ⟨by decide, by decide, (h n hn).2⟩)]
+  simp only [Option.bind_some]
+  rw [decNodesRequest_fields withErr ns (fun n hn => (h n hn).1) []]
+  simp
+
 end Siot.Pb
